@@ -69,22 +69,28 @@ LABEL_ATOMS = ["a", "b c", '"', '""', "\n", "=", "7", "é", "日本", "\U0001F60
                "points [1]:", "class = \"IntervalTier\"", "1.5", "-0"]
 
 
-def rand_label(rng):
+PLAIN_ATOMS = ["a", "b c", '"', '""', "\n", "=", "7", "é", "日本", "\U0001F600", "!", "x\ny", "1.5", "-0", "", "<x>", "%", "e5"]
+
+
+def rand_label(rng, keywords=True):
     n = rng.choice([0, 1, 1, 1, 2, 3])
-    s = "".join(rng.choice(LABEL_ATOMS) + rng.choice(["", " ", ""]) for _ in range(n))
+    atoms = LABEL_ATOMS if keywords else PLAIN_ATOMS
+    s = "".join(rng.choice(atoms) + rng.choice(["", " ", ""]) for _ in range(n))
     return s.strip()
 
 
-def rand_name(rng, used):
+def rand_name(rng, used, keywords=True):
     while True:
-        s = rng.choice(["n", "Mary", "tier 1", 'say "x"', "item [2]:", '"IntervalTier"', "ooTextFile short", "é日本",
-                        "points", "a=b"]) + rng.choice(["", "", "_2", "1"])
+        pool = ["n", "Mary", "tier 1", 'say "x"', "é日本", "points", "a=b"]
+        if keywords:
+            pool += ["item [2]:", '"IntervalTier"', "ooTextFile short"]
+        s = rng.choice(pool) + rng.choice(["", "", "_2", "1"])
         if s not in used:
             used.add(s)
             return s
 
 
-def rand_textgrid(rng, own_spans=False, sliver_free=True):
+def rand_textgrid(rng, own_spans=False, sliver_free=True, keywords=True):
     """a well-formed Textgrid with awkward labels/names and times from all the number classes"""
     textgrid = T.praatio()[0]
     k = rng.randint(2, 9)
@@ -95,6 +101,16 @@ def rand_textgrid(rng, own_spans=False, sliver_free=True):
             if not keep or t - keep[-1] >= 1e-6:
                 keep.append(t)
         times = keep
+    # the statement lets a value within 1e-14 of an integer come back as that integer: two timestamps of one textgrid
+    # must stay distinct under that allowance (else an interval would collapse / two points would coincide)
+    keep, taken = [], set()
+    for t in times:
+        snaps = {F.fkey(t)} | {F.fkey(n) for n in F.near_ints(t)}
+        if snaps & taken:
+            continue
+        taken |= snaps
+        keep.append(t)
+    times = keep
     if len(times) < 2:
         times = [0.0, 1.0]
     lo = 0.0 if rng.random() < 0.6 else times[0]
@@ -104,20 +120,20 @@ def rand_textgrid(rng, own_spans=False, sliver_free=True):
     tg = textgrid.Textgrid(lo, hi)
     used = set()
     for _ in range(rng.randint(1, 3)):
-        name = rand_name(rng, used)
+        name = rand_name(rng, used, keywords)
         if rng.random() < 0.65:
             ents = []
             i = 0
             while i + 1 < len(times):
                 if rng.random() < 0.7:
-                    ents.append((times[i], times[i + 1], rand_label(rng)))
+                    ents.append((times[i], times[i + 1], rand_label(rng, keywords)))
                 i += 1
             tlo, thi = lo, hi
             if own_spans and ents and rng.random() < 0.5:
                 tlo, thi = ents[0][0], ents[-1][1]
             tier = textgrid.IntervalTier(name, ents, tlo, thi)
         else:
-            pts = [(t, rand_label(rng)) for t in times if rng.random() < 0.5]
+            pts = [(t, rand_label(rng, keywords)) for t in times if rng.random() < 0.5]
             tlo, thi = lo, hi
             if own_spans and pts and rng.random() < 0.5:
                 tlo, thi = pts[0][0], pts[-1][0]
@@ -362,5 +378,299 @@ def check_c04(prop, tier):
                                  "ordinary intervals, gaps and slivers around the threshold are saved by the real Textgrid.save in all four "
                                  "formats; TLC decodes the files and judges the sliver relation; distinct = (options, threshold, status, "
                                  "entry count, unit) classes")
+    finally:
+        shutil.rmtree(work, ignore_errors=True)
+
+
+# --------------------------------------------------------------------------- C03
+
+ENCODINGS = [("utf-8", False), ("utf-8-sig", False), ("utf-16-le", True), ("utf-16-be", True)]
+
+
+def encode_text(text, enc, bom):
+    if enc == "utf-16-le":
+        return b"\xff\xfe" + text.encode("utf-16-le")
+    if enc == "utf-16-be":
+        return b"\xfe\xff" + text.encode("utf-16-be")
+    return text.encode(enc)
+
+
+def json_of_doc(doc, layout, npool):
+    """structural JSON for both README schemas, written from the abstract document"""
+    def num(i):
+        v = npool[i]
+        return int(v) if float(v).is_integer() and abs(v) < 2 ** 53 and (i % 2 == 0) else v
+
+    def ents(t):
+        if t["kind"] == "I":
+            return [[num(e["s"]), num(e["e"]), F.conc_label(e["l"], {})] for e in t["ents"]]
+        return [[num(e["t"]), F.conc_label(e["l"], {})] for e in t["ents"]]
+    klass = {"I": "IntervalTier", "P": "TextTier"}
+    if layout == "json":
+        names = [F.conc_label(t["name"], {}) for t in doc["tiers"]]
+        if len(set(names)) != len(names):
+            return None                       # an object cannot hold duplicate keys
+        d = {"start": num(doc["lo"]), "end": num(doc["hi"]),
+             "tiers": {F.conc_label(t["name"], {}): {"type": klass[t["kind"]], "entries": ents(t)} for t in doc["tiers"]}}
+    else:
+        d = {"xmin": num(doc["lo"]), "xmax": num(doc["hi"]),
+             "tiers": [{"class": klass[t["kind"]], "name": F.conc_label(t["name"], {}), "xmin": num(t["lo"]), "xmax": num(t["hi"]),
+                        "entries": ents(t)} for t in doc["tiers"]]}
+    return json.dumps(d, ensure_ascii=False, indent=rng_indent(doc))
+
+
+def rng_indent(doc):
+    return None if len(doc["tiers"]) % 2 else 1
+
+
+def res_doc(tg, idof):
+    textgrid = T.praatio()[0]
+    tiers = []
+    for t in tg.tiers:
+        if isinstance(t, textgrid.IntervalTier):
+            ents = [{"s": idof(e[0]), "e": idof(e[1]), "l": F.abs_label(e[2])} for e in t.entries]
+            kind = "I"
+        else:
+            ents = [{"t": idof(e[0]), "l": F.abs_label(e[1])} for e in t.entries]
+            kind = "P"
+        tiers.append({"kind": kind, "name": F.abs_label(t.name), "lo": idof(t.minTimestamp), "hi": idof(t.maxTimestamp), "ents": ents})
+    return {"lo": idof(tg.minTimestamp), "hi": idof(tg.maxTimestamp), "tiers": tiers}
+
+
+EMPTY_RES = {"lo": -5, "hi": -5, "tiers": []}
+
+
+def doc_features(doc, layout):
+    strs = [F.conc_label(t["name"], {}) for t in doc["tiers"]]
+    for t in doc["tiers"]:
+        strs += [F.conc_label(e["l"], {}) for e in t["ents"]]
+    f = F.derail_features(strs, layout)
+    f["layout"] = layout
+    return f
+
+
+def _c03_job(job):
+    items, start, workdir = job
+    textgrid = T.praatio()[0]
+    errors = T.praatio()[1]
+    out = []
+    eid = start
+    for doc, layout, text, npname, enc, bom, crlf, incl, dup in items:
+        npool = F.NUMBER_POOLS[npname]
+        if layout in ("json", "tgjson"):
+            s = json_of_doc(doc, layout, npool)
+            if s is None:
+                continue
+        else:
+            s = F.conc_text(text, npool)
+        if crlf:
+            s = s.replace("\n", "\r\n")
+        fn = os.path.join(workdir, "in-%d-%d.TextGrid" % (os.getpid(), eid))
+        with open(fn, "wb") as f:
+            f.write(encode_text(s, enc, bom))
+        ids = {F.fkey(v): i for i, v in npool.items()}
+        unknown = {}
+
+        def idof(x):
+            k = F.fkey(x)
+            if k in ids:
+                return ids[k]
+            return unknown.setdefault(k, 1000 + len(unknown))
+        st, pe, res = "ok", False, EMPTY_RES
+        try:
+            with contextlib.redirect_stdout(io.StringIO()):
+                tg = textgrid.openTextgrid(fn, incl, reportingMode="silence", duplicateNamesMode=dup)
+            res = res_doc(tg, idof)
+        except Exception as ex:  # noqa
+            st = type(ex).__name__
+            pe = isinstance(ex, errors.PraatioException)
+        finally:
+            os.remove(fn)
+        feats = doc_features(doc, layout)
+        feats.update({"enc": enc, "crlf": crlf, "npool": npname})
+        out.append({"id": eid, "fam": "file", "op": "open", "doc": doc, "layout": "json" if layout == "json" else layout,
+                    "args": {"inclEmpty": incl, "dup": dup}, "st": st, "pe": pe, "res": res, "features": feats,
+                    "file_text": s if len(s) < 1500 else s[:1500]})
+        eid += 1
+    return out
+
+
+def check_c03(prop, tier):
+    res = common.Result(prop)
+    work = common.scratch()
+    sz = SIZES[tier]
+    try:
+        T.praatio()
+        emitted = [e for e in run_mc("format", sz, work, res) if e.get("op") == "save"]
+        res.exhaustive = True
+        rng = random.Random(common.SEED * 77 + 1)
+        items = []
+        pools = list(F.NUMBER_POOLS)
+        docs = distinct_docs(emitted)
+        import hashlib
+        for e in emitted:
+            for v in range(sz["c03variants"]):
+                # pool and options are a function of (document content, variant), so that all layouts and spellings of one
+                # document are opened with the same options and can be compared with each other
+                h = int(hashlib.sha1((json.dumps(e["doc"], sort_keys=True) + str(v) + str(common.SEED)).encode()).hexdigest(), 16)
+                enc, bom = ENCODINGS[rng.randrange(4)] if v else ENCODINGS[0]
+                items.append((e["doc"], e["layout"], e["text"], pools[h % len(pools)] if v else "plain",
+                              enc, bom, rng.random() < 0.4 if v else False, bool((h >> 8) & 1), ["error", "rename"][(h >> 9) & 1]))
+        for d in docs:
+            for layout in ("json", "tgjson"):
+                for v in range(sz["c03variants"]):
+                    enc, bom = ENCODINGS[rng.randrange(4)] if v else ENCODINGS[0]
+                    items.append((d, layout, None, rng.choice(pools), enc, bom, False, rng.random() < 0.5, rng.choice(["error", "rename"])))
+        jobs, start = [], 0
+        for ch in chunks(items, common.NCPU * 2):
+            jobs.append((ch, start, work))
+            start += len(ch)
+        events = parallel(_c03_job, jobs)
+        groups = {}
+        for ev in events:
+            if ev["layout"] in ("short", "long", "elan"):
+                k = (json.dumps(ev["doc"], sort_keys=True), ev["features"]["npool"], ev["args"]["inclEmpty"], ev["args"]["dup"])
+                groups.setdefault(k, []).append(ev)
+        for k, g in groups.items():
+            if len(g) > 1 and not any(x["features"]["derails_reader"] for x in g):
+                events.append({"id": 0, "fam": "file", "op": "agree", "results": [{"st": x["st"], "res": x["res"]} for x in g[:6]],
+                               "layouts": [x["layout"] for x in g[:6]], "doc": g[0]["doc"], "args": g[0]["args"], "st": "ok",
+                               "layout": "agree", "features": dict(g[0]["features"], layout="agree"), "file_text": ""})
+        events = renumber(events)
+        for ev in events:
+            f = ev["features"]
+            res.distinct.add((f["layout"], f["enc"], f["crlf"], f["npool"], ev["args"]["inclEmpty"], ev["args"]["dup"], ev["st"],
+                              len(ev["doc"]["tiers"]), f["derails_reader"]))
+        if events:
+            e0 = events[0]
+            res.add_sample({"layout": e0["layout"], "args": e0["args"], "file_text": e0["file_text"][:400], "st": e0["st"], "res": e0["res"]})
+        for ev in events:
+            ev.pop("file_text", None)
+        res.notes = dict(encoded_files_from_tlc=len(emitted), documents=len(docs), files_opened=len(events))
+        res.assumptions = ["the files are produced by the specification's writers (EncShort/EncLong in Praat and ELAN style, evaluated by TLC) and a "
+                           "structural JSON writer; Praat itself is not available",
+                           "numbers are identified bit for bit through the concretization's own id -> float table"]
+        return finish_file_check(res, prop, tier, events, work, ["C03_"], common.load_findings(),
+                                 "every file TLC's specification writers encode for the document universe (short, long, ELAN-long) and both JSON "
+                                 "schemas, concretized with number pools/spellings, 4 encodings and LF/CRLF, is opened by the real openTextgrid with "
+                                 "both includeEmptyIntervals values and both duplicate-name modes; TLC compares the result with the document the "
+                                 "file encodes; distinct = (layout, encoding, newline, pool, flags, status, #tiers) classes")
+    finally:
+        shutil.rmtree(work, ignore_errors=True)
+
+
+# --------------------------------------------------------------------------- C01
+
+def _c01_job(job):
+    kind, payload, start, workdir = job
+    textgrid, errors, _ = T.praatio()
+    out = []
+    eid = start
+    for item in payload:
+        if kind == "tlc":
+            doc, lp, np_ = item
+            tg = tg_from_content(doc, F.LABEL_POOLS[lp], F.NUMBER_POOLS[np_])
+            if tg is None:
+                continue
+            combos = [(fmt, b, ie) for fmt in F.FORMATS for b in ((False,) if np_ == "tiny" else (True, False)) for ie in (True, False)]
+            feats = {"src": "tlc", "lpool": lp, "npool": np_}
+            tgs = {True: tg, False: tg}
+        else:
+            seed = item
+            rng = random.Random(seed)
+            tgs = {True: rand_textgrid(rng, own_spans=rng.random() < 0.3, sliver_free=True, keywords=False),
+                   False: rand_textgrid(rng, own_spans=rng.random() < 0.5, sliver_free=False, keywords=False)}
+            combos = [(rng.choice(F.FORMATS), b, rng.random() < 0.5) for b in (True, False)]
+            feats = {"src": "rand", "seed": seed}
+        for fmt, blanks, incl in combos:
+            tg0 = tgs[blanks]
+            fn1 = os.path.join(workdir, "rt1-%d-%d" % (os.getpid(), eid))
+            fn2 = os.path.join(workdir, "rt2-%d-%d" % (os.getpid(), eid))
+            st1 = st2 = st3 = "ok"
+            t1 = t2 = None
+            tg2 = None
+            try:
+                with contextlib.redirect_stdout(io.StringIO()):
+                    tg0.save(fn1, fmt, blanks, reportingMode="silence")
+                t1 = open(fn1, "rb").read()
+            except Exception as ex:  # noqa
+                st1 = type(ex).__name__
+            if st1 == "ok":
+                try:
+                    with contextlib.redirect_stdout(io.StringIO()):
+                        tg2 = textgrid.openTextgrid(fn1, incl, reportingMode="silence")
+                except Exception as ex:  # noqa
+                    st2 = type(ex).__name__
+            else:
+                st2 = "skipped"
+            if tg2 is not None:
+                try:
+                    with contextlib.redirect_stdout(io.StringIO()):
+                        tg2.save(fn2, fmt, blanks, reportingMode="silence")
+                    t2 = open(fn2, "rb").read()
+                except Exception as ex:  # noqa
+                    st3 = type(ex).__name__
+            else:
+                st3 = "skipped"
+            for fn in (fn1, fn2):
+                if os.path.exists(fn):
+                    os.remove(fn)
+            table = F.CharTable()
+            fl = F.tg_floats(tg0) + (F.tg_floats(tg2) if tg2 is not None else [])
+            rt = F.RankTable(fl)
+            mem = F.doc_of_tg(tg0, table, rt.mem)
+            resd = F.doc_of_tg(tg2, table, rt.id) if tg2 is not None else {"lo": -5, "hi": -5, "tiers": []}
+            # includeBlankSpaces only re-fills what includeEmptyIntervals=False dropped: the written form is a fixed point
+            strs = [t.name for t in tg0.tiers] + [e[-1] for t in tg0.tiers for e in t.entries]
+            lay = {"short_textgrid": "short", "long_textgrid": "long", "json": "json", "textgrid_json": "tgjson"}[fmt]
+            feats = dict(feats, derails_reader=F.derail_features(strs, lay)["derails_reader"])
+            out.append({"id": eid, "fam": "file", "op": "roundtrip", "mem": mem, "fmt": "json" if fmt == "json" else fmt,
+                        "args": {"blanks": blanks, "inclEmpty": incl}, "st1": st1, "st2": st2, "st3": st3, "res": resd,
+                        "sametext": t1 is not None and t1 == t2, "st": st1 if st1 != "ok" else st2,
+                        "features": dict(feats, fmt=fmt)})
+            eid += 1
+    return out
+
+
+def check_c01(prop, tier):
+    res = common.Result(prop)
+    work = common.scratch()
+    sz = SIZES[tier]
+    try:
+        T.praatio()
+        emitted = run_mc("format", sz, work, res)
+        res.exhaustive = True
+        docs = distinct_docs(emitted)
+        # C01's quantifier has quotes, doubled quotes, newlines, '=', digits, Unicode - the format's own keywords are C02's
+        plans = [("plainwords", "plain"), ("plainuni", "nearint"), ("plainwords", "tiny"), ("uni", "plain")] + \
+                ([("plainuni", "ints"), ("plainwords", "dyadic")] if tier == "thorough" else [])
+        jobs, start = [], 0
+        for lp, np_ in plans:
+            for ch in chunks([(d, lp, np_) for d in docs], common.NCPU):
+                jobs.append(("tlc", ch, start, work))
+                start += 16 * len(ch)
+        seeds = [common.SEED * 1000003 + 500000 + i for i in range(sz["c01rand"])]
+        for ch in chunks(seeds, common.NCPU):
+            jobs.append(("rand", ch, start, work))
+            start += 2 * len(ch)
+        events = renumber(parallel(_c01_job, jobs))
+        for ev in events:
+            if ev["mem"]["tiers"]:
+                res.distinct.add((ev["fmt"], ev["args"]["blanks"], ev["args"]["inclEmpty"], ev["st1"], ev["st2"],
+                                  tuple(t["kind"] for t in ev["mem"]["tiers"]), tuple(len(t["ents"]) for t in ev["mem"]["tiers"]),
+                                  json.dumps(ev["features"], sort_keys=True)[:60]))
+        if events:
+            e0 = events[0]
+            res.add_sample({k: e0[k] for k in ("fmt", "args", "mem", "res", "st1", "st2", "st3", "sametext", "features")})
+        res.notes = dict(tlc_documents=len(docs), plans=plans, random_documents=len(seeds))
+        res.assumptions = ["timestamps are compared as ranks of the bit patterns of all floats of one event; only the 1e-14 near-integer "
+                           "allowance of the statement is admitted",
+                           "documents saved with blank filling on keep every interval and gap above the default threshold (what happens "
+                           "below it is C04's subject)"]
+        return finish_file_check(res, prop, tier, events, work, ["C01_"], common.load_findings(),
+                                 "every document of the TLC format universe concretized with label/number pools, and random textgrids, saved "
+                                 "by Textgrid.save, opened by openTextgrid and saved again, for all four formats x includeBlankSpaces x "
+                                 "includeEmptyIntervals; TLC compares memory and reopened documents and the fixed point; distinct = "
+                                 "(format, flags, statuses, tier shapes, source) classes")
     finally:
         shutil.rmtree(work, ignore_errors=True)
